@@ -398,15 +398,59 @@ func (r *Run) fail(kind, label, detail string) {
 	if !r.inPrefix() {
 		r.flush()
 		var vec []uint64
-		if res := r.sol.CheckSat(); res == Sat {
+		res := r.sol.CheckSat()
+		if res == Sat {
 			vec, _ = r.model()
-		} else if res == Unsat {
-			panic(pathEnd{"infeasible"})
+		} else if res == Unknown {
+			// is this path feasible at all? ask the other solver before saying anything
+			res, vec = r.secondOpinion(nil)
 		}
-		r.addFinding(kind, label, detail, vec)
-		r.events = append(r.events, Event{Kind: "panic", Label: kind})
+		switch res {
+		case Unsat:
+			panic(pathEnd{"infeasible"})
+		case Sat:
+			r.addFinding(kind, label, detail, vec)
+			r.events = append(r.events, Event{Kind: "panic", Label: kind})
+		default:
+			r.unknowns++
+			r.addFinding("unknown", label, "feasibility of the path reaching this "+kind+" is undecided by both solvers: "+detail, nil)
+		}
 	}
 	panic(pathEnd{kind + ": " + label})
+}
+
+// secondOpinion re-decides the path condition (and extra, if given) in a fresh
+// process of the other solver with a longer limit; with a model when sat.
+func (r *Run) secondOpinion(extra *Term) (SatResult, []uint64) {
+	kind := "z3-new"
+	if r.sol.kind == "z3-new" {
+		kind = "z3"
+	}
+	s, err := NewSolver(kind, 120000, "")
+	if err != nil {
+		return Unknown, nil
+	}
+	defer s.Close()
+	s.hardMs = 150000
+	s.send(timePreamble)
+	for _, t := range r.pc {
+		s.Assert(t)
+	}
+	if extra != nil {
+		s.Assert(extra)
+	}
+	res := s.CheckSat()
+	var vec []uint64
+	if res == Sat {
+		ts := make([]*Term, len(r.inputs))
+		for i, in := range r.inputs {
+			ts[i] = in.T
+		}
+		if vs, err := s.GetValues(ts); err == nil {
+			vec = vs
+		}
+	}
+	return res, vec
 }
 
 // check: cond must hold; if it can fail a finding is recorded and execution
@@ -433,8 +477,15 @@ func (r *Run) check(cond *Term, kind, label, detail string) {
 	} else {
 		r.sol.Pop()
 		if res == Unknown {
-			r.unknowns++
-			r.addFinding("unknown", label, "solver returned unknown for "+kind+": "+detail, nil)
+			switch res2, vec := r.secondOpinion(r.ts.Not(cond)); res2 {
+			case Unsat:
+				// the other solver proves the condition on this path
+			case Sat:
+				r.addFinding(kind, label, detail, vec)
+			default:
+				r.unknowns++
+				r.addFinding("unknown", label, "both solvers returned unknown for "+kind+": "+detail, nil)
+			}
 		}
 	}
 	if r.feasible(cond) == Unsat {
